@@ -108,6 +108,12 @@ def error_history(scn, n, with_twin=False):
     g, a, m = hist.gyr, hist.acc[key], hist.mag[key]
     errs = np.full(n, np.nan)
     status = 'ok'
+    if kind.name == 'fkf' and e0 > 0:
+        # FKF has no q0: its initial orientation is the one sensed in the first sample, so the first sample is
+        # taken at the initial attitude and every later one at the truth
+        Ri = qm.q2R(q_init).T
+        a[0] = scn['g'] * (Ri @ np.array(a_ref, dtype=float))
+        m[0] = scn['mscale'] * (Ri @ np.array(m_ref, dtype=float))
     if not kind.streaming:
         pp = dict(p)
         if kind.q0_route == 'w0':
@@ -183,7 +189,7 @@ class Check:
         'budgets (samples to settle) come from c05_table.json, measured once on the repaired tree over 16 seeds per cell and used with a x3 (+300 samples) margin; steady-state tolerances are fixed formulas (5e-3 rad; 4*gain*dt + 2e-3 for Madgwick, whose normalised step chatters; 2e-2 for FKF); a slowdown inside the margin is missed; cells that need more than 60000 samples on the repaired tree are not exercised (listed in the table as slow)',
         'the convention table (which reference directions each filter assumes, and in which direction its quaternion rotates) is an assumption of this oracle; the e0=0 twin of every run is its standing self-check',
         'gains are drawn from a fixed menu per filter (default and two or three non-default sets), dt from {2,10,50} ms',
-        'FKF offers no route for an initial orientation: only the e0=0 clause is checked for it',
+        'FKF has no q0: its initial orientation is given through the first sample (taken at the initial attitude, all later samples at the truth)',
         'in a third of the runs a companion instance of the same class, built from the same configuration array objects (Mahony b0, EKF P, ROLEQ weights; the values are the class defaults) but started 90-170 degrees away, is stepped in between: the budgets were measured without it, i.e. it is assumed not to matter',
     ]
     components = {
@@ -208,13 +214,13 @@ class Check:
             for vi in range(len(vs)):
                 for dt in DTS:
                     for e0 in E0S:
-                        if kind == 'fkf' and e0 > 0:
-                            continue
                         yield kind, vi, e0, dt
 
     def make_scenario(self, rnd, kind, vi, e0, dt):
         params = dict(VARIANTS[kind][vi])
         adaptive = bool(params.get('adaptive'))
+        if params.get('magnetic_ref') == 'vector':
+            params['mref_scale'] = rnd.choice([1.0, 48.0, 0.3])     # a reference given in physical units is not a unit vector
         return {'kind': kind, 'variant': vi, 'params': params, 'dt': dt, 'e0_deg': e0, 'axis': W.rand_unit(rnd),
                 'q_true': W.rand_unit(rnd, 4), 'g': 9.80665 if adaptive else 9.81 * rnd.uniform(0.5, 2.0),
                 'mscale': 50.0 * rnd.uniform(0.5, 2.0), 'dip': rnd.choice([-70.0, -45.0, -10.0, 20.0, 45.0, 60.0, 66.0, 75.0]),
@@ -233,7 +239,7 @@ class Check:
                 ent = (self.table or {}).get(table_key(kind, vi, e0, dt))
                 if ent is None:
                     continue
-                if ent.get('status') == 'slow' and kind != 'ukf':
+                if ent.get('status') == 'slow' and kind not in ('ukf', 'fkf'):
                     continue        # converges, but needs more samples than the calibration cap: not exercised
                 if ent.get('status') != 'ok':
                     return self.make_scenario(rnd, kind, vi, e0, dt)   # breaks down on the repaired tree: known findings
@@ -370,11 +376,11 @@ def _cal_cell(args):
     return table_key(kind, vi, e0, dt), {'settle': worst_settle, 'steady': worst_steady, 'status': status, 'notes': notes[:2], 'tol': tol}
 
 
-def calibrate(seeds=16, workers=16):
+def calibrate(seeds=16, workers=16, only=None):
     import concurrent.futures as cf
     import multiprocessing
-    jobs = [(k, vi, e0, dt, seeds) for k, vi, e0, dt in CHECK.cells()]
-    table = {}
+    jobs = [(k, vi, e0, dt, seeds) for k, vi, e0, dt in CHECK.cells() if only is None or k in only]
+    table = dict(load_table() or {}) if only is not None else {}
     with cf.ProcessPoolExecutor(workers, mp_context=multiprocessing.get_context('fork')) as pool:
         for key, ent in pool.map(_cal_cell, jobs, chunksize=1):
             table[key] = ent
